@@ -445,6 +445,29 @@ def namePattern (s : List Nat) : Bool :=
   | c :: cs => ((65 ≤ c && c ≤ 90) || (97 ≤ c && c ≤ 122)) &&
       cs.all fun d => (65 ≤ d && d ≤ 90) || (97 ≤ d && d ≤ 122) || (48 ≤ d && d ≤ 57)
 
+/-- the number test of lexToken: starts with a digit (`^[0-9].*$`; `.` does not match a newline)
+    and strconv.ParseFloat accepts it -/
+def numberCandidate (kc : List Nat) : Bool :=
+  (match kc with | c :: _ => 48 ≤ c && c ≤ 57 | [] => false) && !(kc.contains 10) && validFloat kc
+
+/-- keyword / symbol / identifier starting at `l.start = l.pos` (after the number test failed) -/
+def lexWordText (l : L) : L × Next :=
+  let l := lexTextBlock l
+  let ic := l.slice l.start l.pos
+  let kc := lowerGo ic
+  match (lookupTab keywordBytes kc).orElse (fun _ => lookupTab symbolBytes kc) with
+  | some t => (l.emitToken t, Next.token)
+  | none =>
+    if !namePattern kc then (l.emitError "Cannot parse identifier", Next.stop)
+    else (l.emit tIDENTIFIER ic true false, Next.token)
+
+/-- number / keyword / symbol / identifier token starting at `l.start = l.pos` -/
+def lexWord (l : L) : L × Next :=
+  let l := lexNumberBlock l
+  let kc := lowerGo (l.slice l.start l.pos)
+  if numberCandidate kc then (l.emit tNUMBER kc false false, Next.token)
+  else lexWordText (if kc.length > 0 then l.backup (l.pos - l.start) else l)
+
 def lexToken (l : L) : L × Next :=
   let n1 := l.peek 1
   let n2 := l.peek 2
@@ -455,22 +478,7 @@ def lexToken (l : L) : L × Next :=
     if (skipWhiteSpace l).2 then lexComment (skipWhiteSpace l).1 else ((skipWhiteSpace l).1, Next.stop)
   else if (n1 = some 34 || n1 = some 39) || (n1 = some 114 && (n2 = some 34 || n2 = some 39)) then
     if (skipWhiteSpace l).2 then lexValue (skipWhiteSpace l).1 else ((skipWhiteSpace l).1, Next.stop)
-  else
-    let l := { l with start := l.pos }
-    let l := lexNumberBlock l
-    let kc := lowerGo (l.slice l.start l.pos)
-    let isNum := (match kc with | c :: _ => 48 ≤ c && c ≤ 57 | [] => false) && !(kc.contains 10) && validFloat kc
-    if isNum then (l.emit tNUMBER kc false false, Next.token)
-    else
-      let l := if kc.length > 0 then l.backup (l.pos - l.start) else l
-      let l := lexTextBlock l
-      let ic := l.slice l.start l.pos
-      let kc := lowerGo ic
-      match (lookupTab keywordBytes kc).orElse (fun _ => lookupTab symbolBytes kc) with
-      | some t => (l.emitToken t, Next.token)
-      | none =>
-        if !namePattern kc then (l.emitError "Cannot parse identifier", Next.stop)
-        else (l.emit tIDENTIFIER ic true false, Next.token)
+  else lexWord { l with start := l.pos }
 
 /-- (*lexer).run -/
 def lex (input : List Nat) : Array Tok :=
